@@ -556,7 +556,7 @@ pub fn plan_for(id: &str, tier: &str) -> Option<Plan> {
             p.property = "C07";
             p.mon.immut = true;
             p.n_random = n(200, 5000);
-            p.long = (n(2, 60), n(500, 2000));
+            p.long = (n(2, 24), n(500, 2000));
             p.required = vec!["AddSnapshot|", "|conflict", "|accepted"];
             p.rule = "every accepted (version, parent, payload) is re-read through GetChildVersion after later operations (a random third after every operation, all of them every 10 operations, after every reopen and at the end), across snapshots, rejected requests, other clients' activity and reopen. distinct_nontrivial = distinct situations that occurred while accepted versions were being re-read. Concurrent part: uncontrolled stress (6-12 threads on one storage / one SQLite object per thread / sockets) after which every version whose acceptance was acknowledged must still be served with its parent and payload.";
         }
